@@ -75,7 +75,7 @@ pub fn run(ctx: Ctx) -> ! {
     }
     found.flush(&ctx);
     let mut cov = sum.coverage(&format!(
-        "TxLab space: per base (Byron B1, B1r; post-Byron B1/B2/B3 per era) every single deviation and every pair of deviations of different dimensions ({}); a case is non-trivial when pallas-traverse decodes it so that validate_tx runs; distinct by Blake2b of (tx bytes, UTxO bytes, environment numbers)",
+        "TxLab space: per base (Byron B1, B1r; post-Byron B1/B2/B3 per era, B3m for Conway) every single deviation and every pair of deviations of different dimensions ({}); a case is non-trivial when pallas-traverse decodes it so that validate_tx runs; distinct by Blake2b of (tx bytes, UTxO bytes, environment numbers)",
         bounds.describe()
     ));
     cov.insert("panic_sites".into(), json!(found.summary()));
